@@ -334,6 +334,8 @@ pub fn explore(run: &RdRun, init: Box<dyn Rd>) -> Outcome {
     }
     crate::watchdog::leave();
     out.cov.states += nodes.len() as u64;
+    // every transition is one step of the model executed on the implementation and compared
+    out.cov.traces_validated += out.cov.transitions;
     out
 }
 
